@@ -6,14 +6,20 @@ set -u
 P=$1; SRC=$2; N=$3; shift 3
 CHECKS=${@:-$P}
 export GOFLAGS=-mod=mod GOPROXY=off GOSUMDB=off
-WT=/tmp/seedwt-$P-$N
-rm -rf $WT; git -C /repo worktree prune; git -C /repo worktree add -q --detach $WT HEAD || exit 2
 DIFF=$SRC/mutant$N.diff; DEMO=$SRC/demo${N}_test.go.txt
 DIR=$(head -1 $DEMO | sed 's#// dir: *##')
 OUT=/verif/seeded/$P-$N; mkdir -p $OUT
 cp $DIFF $OUT/patch.diff; cp $DEMO $OUT/demo_test.go.txt; cp $SRC/mutant$N.txt $OUT/description.txt 2>/dev/null
 res() { echo "$1" | tee -a $OUT/log.txt; }
 : > $OUT/log.txt
+if [ -f /tmp/m2-confirm/$P-$N.txt ]; then
+  # confirmation already done in a scratch worktree by seed_confirm.sh (same three steps)
+  read W B WO REST < /tmp/m2-confirm/$P-$N.txt
+  [ "$W" = "noapply" ] && { res "patch does not apply"; exit 2; }
+  res "demo with patch exit=$W (expect !=0); suite with patch: $REST exit=$B (expect 0); demo without patch exit=$WO (expect 0)"
+else
+WT=/tmp/seedwt-$P-$N
+rm -rf $WT; git -C /repo worktree prune; git -C /repo worktree add -q --detach $WT HEAD || exit 2
 ( cd $WT && git apply $DIFF ) || { res "patch does not apply"; exit 2; }
 cp $DEMO $WT/$DIR/zz_demo_test.go
 ( cd $WT/$DIR && go test -vet=off -count=1 -run . . > /tmp/demo_with.log 2>&1 ); W=$?
@@ -25,8 +31,9 @@ cp $DEMO $WT/$DIR/zz_demo_test.go
 rm -f $WT/$DIR/zz_demo_test.go
 res "demo with patch exit=$W (expect !=0); suite with patch: $(tail -1 /tmp/base.log) exit=$B (expect 0); demo without patch exit=$WO (expect 0)"
 git -C /repo worktree remove --force $WT
+fi
 DET=""
-( cd /repo && git apply $DIFF ) || { res "patch does not apply to /repo"; exit 2; }
+( cd /repo && ( git apply $DIFF || git apply -3 $DIFF ) ) || { res "patch does not apply to /repo"; ( cd /repo && git checkout -q -- . ); exit 2; }
 for C in $CHECKS; do
   ( cd /verif && timeout 1500 bin/check $C > /tmp/seed_check.log 2>&1 ); E=$?
   V=$(grep -c '^VIOLATION' /tmp/seed_check.log)
